@@ -41,6 +41,65 @@ pub fn run_rule_case(ctx: &mut Ctx, c: &CaseReq, ic: bool) -> (Exchange, Option<
     (ex, parsed)
 }
 
+/// Rules whose outcome depends on the regex crate's size limits (a set of individually valid
+/// regexes can fail to build): implementation only, all 16 masks; the oracle is "no panic, and
+/// every mask gives the unoptimised verdict".
+pub fn run_implonly(ctx: &mut Ctx) {
+    let mut cases = crate::check::implonly_cases();
+    let sizes: &[usize] = if ctx.tier == "thorough" { &[40, 80, 120, 180, 260, 400] } else { &[120, 260] };
+    for &n in sizes {
+        for pre in ["?", "i?"] {
+            let a = format!("{}a\\w{{{}}}", pre, n);
+            let b = format!("{}b\\w{{{}}}", pre, n);
+            let c3 = format!("{}c\\w{{{}}}", pre, n);
+            let list = Yaml::Sequence(vec![gen::ys(&a), gen::ys(&b), gen::ys(&c3)]);
+            let shapes: Vec<(String, Vec<(String, Yaml)>)> = vec![
+                ("list".into(), vec![("A".into(), map1y("f", list.clone())), ("condition".into(), gen::ys("A"))]),
+                ("all-list".into(), vec![("A".into(), map1y("all(f)", list.clone())), ("condition".into(), gen::ys("A"))]),
+                ("of-list".into(), vec![("A".into(), map1y("of(f, 2)", list.clone())), ("condition".into(), gen::ys("A"))]),
+                ("seq-of-mappings".into(), vec![
+                    ("A".into(), Yaml::Sequence(vec![map1y("f", gen::ys(&a)), map1y("f", gen::ys(&b)), map1y("f", gen::ys(&c3))])),
+                    ("condition".into(), gen::ys("A")),
+                ]),
+                ("or-chain".into(), vec![
+                    ("A".into(), map1y("f", gen::ys(&a))), ("B".into(), map1y("f", gen::ys(&b))), ("C".into(), map1y("f", gen::ys(&c3))),
+                    ("condition".into(), gen::ys("A or B or C")),
+                ]),
+            ];
+            for (name, det) in shapes {
+                let docs = vec![map1y("f", gen::ys(&format!("a{}", "x".repeat(n)))), map1y("f", gen::ys("zzz")), map1y("g", gen::ys("a"))];
+                cases.push((format!("big-regex-{}-{}-{}", name, pre, n), CaseReq { optimised: false, det, tps: vec![], tns: vec![], docs, masks: (0..16).collect() }));
+            }
+        }
+    }
+    for (name, c) in cases {
+        let line = case::case_line(false, &c);
+        let imp = ctx.impl_only(&line);
+        let ry = rule_yaml(&c);
+        let ex = Exchange { line: line.clone(), imp: imp.clone(), model: String::new(), agree: true, supported: false };
+        ctx.stat("implonly-case");
+        if imp.starts_with("PANIC") || imp.contains(" PANIC") {
+            ctx.violation("oracle", &format!("implementation-only case {}: panic: {}", name, trunc(&imp, 300)), &ex, &ry, true);
+            continue;
+        }
+        if let Some(p) = parse_reply(&imp) {
+            if p.load == "ok" {
+                ctx.nontrivial.insert(hash_str(&line));
+                let failing = c01_failing_masks(&p);
+                if !failing.is_empty() && ctx.prop == "C01" {
+                    ctx.violation("oracle", &format!("implementation-only case {}: masks {:?} change the verdict", name, failing), &ex, &ry, true);
+                }
+            }
+        }
+    }
+}
+
+fn map1y(k: &str, v: Yaml) -> Yaml {
+    let mut m = serde_yaml::Mapping::new();
+    m.insert(gen::ys(k), v);
+    Yaml::Mapping(m)
+}
+
 fn sample_case(ctx: &mut Ctx, c: &CaseReq, p: &Parsed) {
     if ctx.samples.len() < 6 {
         let res: Vec<String> = p.masks.iter().take(2).map(|m| {
@@ -63,6 +122,7 @@ pub fn c01_failing_masks(p: &Parsed) -> Vec<u64> {
 }
 
 pub fn run_c01(ctx: &mut Ctx, known: &Known) {
+    run_implonly(ctx);
     // corpus first
     for (name, c) in corpus_cases() {
         let (ex, parsed) = run_rule_case(ctx, &c, false);
@@ -124,6 +184,7 @@ fn c01_judge(ctx: &mut Ctx, known: &Known, c: &CaseReq, ex: &Exchange, parsed: O
 // ---------------------------------------------------------------------------------- C03
 
 pub fn run_c03(ctx: &mut Ctx, _known: &Known) {
+    run_implonly(ctx);
     for (name, c) in corpus_cases() {
         let (ex, parsed) = run_rule_case(ctx, &c, false);
         c03_judge(ctx, &c, &ex, parsed, &format!("corpus:{}", name));
@@ -210,7 +271,7 @@ pub fn run_c13(ctx: &mut Ctx, _known: &Known) {
         for _ in 0..ntn {
             c.tns.push(example(&mut r));
         }
-        c.docs = c.tps.iter().chain(c.tns.iter()).filter(|d| d.is_mapping()).cloned().collect();
+        c.docs = c.tps.iter().chain(c.tns.iter()).filter_map(|d| d.as_mapping().map(|m| Yaml::Mapping(m.clone()))).collect();
         let (ex, parsed) = run_rule_case(ctx, &c, false);
         let ry = rule_yaml(&c);
         if ex.imp.contains("PANIC") {
@@ -228,7 +289,7 @@ pub fn run_c13(ctx: &mut Ctx, _known: &Known) {
             let mut k = 0;
             let mut tp_fail = vec![];
             for (j, t) in c.tps.iter().enumerate() {
-                if t.is_mapping() {
+                if t.as_mapping().is_some() {
                     if !v[k] {
                         tp_fail.push(j);
                     }
@@ -239,7 +300,7 @@ pub fn run_c13(ctx: &mut Ctx, _known: &Known) {
             }
             let mut tn_fail = vec![];
             for (j, t) in c.tns.iter().enumerate() {
-                if t.is_mapping() {
+                if t.as_mapping().is_some() {
                     if v[k] {
                         tn_fail.push(j);
                     }
@@ -269,8 +330,15 @@ pub fn run_c13(ctx: &mut Ctx, _known: &Known) {
     }
 }
 
+fn tagged(v: Yaml) -> Yaml {
+    Yaml::Tagged(Box::new(serde_yaml::value::TaggedValue { tag: serde_yaml::value::Tag::new("t"), value: v }))
+}
+
 fn example(r: &mut Rng) -> Yaml {
-    match r.below(12) {
+    match r.below(14) {
+        // a tagged mapping is still a mapping (`as_mapping` looks through tags); a tagged scalar is not
+        12 => tagged(gen::gen_doc(r)),
+        13 => if r.chance(50) { tagged(gen::ys("text")) } else { tagged(tagged(gen::gen_doc(r))) },
         0 => Yaml::Number(5.into()),
         1 => gen::ys("text"),
         2 => Yaml::Sequence(vec![gen::gen_doc(r)]),
@@ -398,11 +466,12 @@ pub fn run_c16(ctx: &mut Ctx, _known: &Known) {
 
 // ---------------------------------------------------------------------------------- C04
 
-pub const SPECIALS: &[&str] = &["\"", "'", "i", "?", "*", "(", ")", "[", "=", ">", ".", "-", " ", ",", "a", "1", "\\", "#", "é", "²"];
+pub const SPECIALS: &[&str] = &["\"", "'", "i", "?", "*", "(", ")", "[", "=", ">", ".", "-", " ", ",", "\u{b}", "\u{a0}", "a", "1", "\\", "#", "é", "²"];
 
 pub fn run_c04(ctx: &mut Ctx, _known: &Known) {
+    run_implonly(ctx);
     // exhaustive: all strings up to length 3 over the special alphabet, in every textual layer
-    let alpha: Vec<&str> = SPECIALS.iter().take(if ctx.tier == "thorough" { 20 } else { 14 }).cloned().collect();
+    let alpha: Vec<&str> = SPECIALS.iter().take(if ctx.tier == "thorough" { 22 } else { 16 }).cloned().collect();
     let mut strings: Vec<String> = vec![String::new()];
     let mut frontier = vec![String::new()];
     for _ in 0..3 {
@@ -421,7 +490,7 @@ pub fn run_c04(ctx: &mut Ctx, _known: &Known) {
     }
     // keyword-adjacent and random UTF-8 strings
     let n = budget(ctx, 1500, 40000);
-    let pieces = ["and ", "or ", "not ", "not(", "all(", "of(", "int(", "str(", "string(", "flt(", "A", "B", "foo", " ", "(", ")", ",", "1", "1.5", "==", ">=", "<", "é", "日", "٣", "-", ".", "#", "[0]", "_", "\t", "and", "or", "\"", "'", "*", "?", "i", "\\", "{", "}", "|", "^", "$", "+", "\u{0}"];
+    let pieces = ["and ", "or ", "not ", "not(", "all(", "of(", "int(", "str(", "string(", "flt(", "A", "B", "foo", " ", "(", ")", ",", "1", "1.5", "==", ">=", "<", "é", "日", "٣", "-", ".", "#", "[0]", "_", "\t", "and", "or", "\"", "'", "*", "?", "i", "\\", "{", "}", "|", "^", "$", "+", "\u{0}", "\u{b}", "\u{c}", "\r", "\n", "\u{85}", "\u{a0}", "\u{2003}", "\u{3000}", "\u{feff}"];
     for i in 0..n {
         let mut r = case_rng(ctx, i);
         let k = 1 + r.below(7);
